@@ -110,4 +110,60 @@ def run_doc_project(files):
                         ("author", "version", "since", "category", "license", "date", "deprecated", "display")}
                 out[key] = dict(doc=it.doc, text=bs4.BeautifulSoup(it.doc or "", "html.parser").get_text(),
                                 summary=it.meta.summary, meta=meta, doc_list=list(it.doc_list))
+            # enumerators are not rendered through markdown: their metadata and remaining doc lines are observed
+            for mod in getattr(f, "modules", []):
+                for en in getattr(mod, "enums", []):
+                    for v in en.variables:
+                        meta = {k: getattr(v.meta, k, None) for k in
+                                ("author", "version", "since", "category", "license", "date", "deprecated", "display")}
+                        out[("variable", v.name.lower(), "enum")] = dict(
+                            doc=None, text="\n".join(v.doc_list), summary=None, meta=meta, doc_list=list(v.doc_list))
     return "ok", out
+
+
+def run_shared_decl(doc_lines, nvars, style=0, stmt="integer"):
+    """One declaration of `nvars` variables documented by ONE comment, parsed by FortranSourceFile; the
+    calls of read_metadata made while the variables are constructed are observed (wrappers around
+    FortranBase.read_metadata and ford.utils.meta_preprocessor): for every variable, in declaration
+    order, (name, doc_list the variable was given, ordered metadata found, doc_list left).
+    Returns ('ok', [...]) or ('err', text)."""
+    import ford.sourceform as sf
+    import ford.utils
+    from harness.gen.c03doc import render_decl
+    from harness.impl import fordrun
+    names = [f"sv{'abcdefgh'[i]}" for i in range(nvars)]
+    src = ("module shm\n  implicit none\n"
+           + render_decl(f"{stmt} :: {', '.join(names)}", {"lines": doc_lines}, "  ", style)
+           + "end module shm\n")
+    seen, cur = [], []
+    orig_rm, orig_mp = sf.FortranBase.read_metadata, ford.utils.meta_preprocessor
+
+    def spy_mp(lines):
+        meta, body = orig_mp(lines)
+        if cur:
+            cur[-1]["meta"] = [(k, list(v)) for k, v in meta.items()]
+        return meta, body
+
+    def spy_rm(self):
+        rec = {"name": getattr(self, "name", None), "obj": getattr(self, "obj", None),
+               "given": list(self.doc_list), "meta": []}
+        cur.append(rec)
+        try:
+            return orig_rm(self)
+        finally:
+            cur.pop()
+            rec["left"] = list(self.doc_list)
+            seen.append(rec)
+
+    try:
+        sf.FortranBase.read_metadata = spy_rm
+        ford.utils.meta_preprocessor = spy_mp
+        with fordrun.Work({"src/s.f90": src}) as w:
+            fordrun.parse_project(w.root, correlate=False, display=["public", "private", "protected"], dbg=False)
+    except Exception as e:  # noqa
+        return "err", f"{type(e).__name__}: {e}"
+    finally:
+        sf.FortranBase.read_metadata = orig_rm
+        ford.utils.meta_preprocessor = orig_mp
+    recs = [r for r in seen if r["obj"] == "variable" and r["name"] in names]
+    return "ok", [(r["name"], r["given"], r["meta"], r["left"]) for r in recs]
